@@ -53,7 +53,40 @@ func (_this *Reader) Init(config *configuration.Configuration) {
 }
 
 func (_this *Reader) SetReader(reader io.Reader) {
-	_this.reader = reader
+	_this.reader = &steadyReader{reader: reader}
+}
+
+// steadyReader adapts any io.Reader to the stricter behavior the decoding code
+// (and the uleb128, compact float and compact time helpers) relies upon: a read
+// either returns at least one byte and no error, or no bytes and an error. The
+// io.Reader contract also allows returning data together with an error (commonly
+// the last bytes together with io.EOF), and returning 0 bytes with a nil error.
+type steadyReader struct {
+	reader io.Reader
+	err    error
+}
+
+func (_this *steadyReader) Read(p []byte) (n int, err error) {
+	if _this.err != nil {
+		return 0, _this.err
+	}
+	if len(p) == 0 {
+		return 0, nil
+	}
+	for emptyReads := 0; emptyReads < 100; emptyReads++ {
+		n, err = _this.reader.Read(p)
+		if n > 0 {
+			// Hold back any error until the data has been consumed.
+			_this.err = err
+			return n, nil
+		}
+		if err != nil {
+			_this.err = err
+			return 0, err
+		}
+	}
+	_this.err = io.ErrNoProgress
+	return 0, _this.err
 }
 
 func (_this *Reader) ReadUint8() uint8 {
